@@ -24,10 +24,19 @@ Definition ocall_eqb (a b : ocall) : bool :=
 (* how the run was started: maintenance.Rotate directly, RotateAll over configuration objects (rotateDB for each), or
    portCHEnv on an environment (and the DATABASE_DATA a configuration file left) followed by RotateAll; for the last
    one the harness reports whether portCHEnv returned an error and DATABASE_DATA afterwards *)
+(* func initDB of package main (verbatim copy) with ctrl.Init recorded and the real ctrl.Rotate: what it did, and the
+   state of every database with a name of its own afterwards *)
+Record oinit := {
+  oi_panicked : bool; oi_init_calls : nat; oi_rotate_calls : nat;
+  oi_init_first : bool;        (* ctrl.Init had returned when ctrl.Rotate was called *)
+  oi_same_cfg : bool;          (* both were given the configuration initDB was given *)
+  oi_projects_ok : bool }.     (* every call named the project "qryn" *)
+Record ostate := { os_db : nat; os_ttl : list string; os_policy : list string; os_settings : list (Z * string) }.
 Inductive rkind :=
 | KDirect
 | KAll (os : list dbobj)
-| KEnv (e : environ) (preset : list dbobj) (oerr : bool) (oout : list dbobj).
+| KEnv (e : environ) (preset : list dbobj) (oerr : bool) (oout : list dbobj)
+| KInit (e : environ) (init_fails : bool) (os : list (nat * dbobj)) (o : oinit) (sts : list ostate).
 
 Record orun := {
   r_cfg : config; r_fault : fault;
@@ -65,12 +74,14 @@ Definition init_db (c : case) : db := db_of (c_init_ttl c) (c_init_policy c) (c_
 Definition obs_db (r : orun) : db := db_of (r_ttl r) (r_policy r) (r_settings r).
 
 (* model state = observed state: the seven tables, every reported settings row, and the eight keys *)
-Definition state_eqb (d : db) (r : orun) : bool :=
-  let o := obs_db r in
+Definition state_eqb3 (d : db) (ttl pol : list string) (sett : list (Z * string)) : bool :=
+  let o := db_of ttl pol sett in
   forallb (fun t => String.eqb (d_ttl d t) (d_ttl o t) && String.eqb (d_policy d t) (d_policy o t)) all_tables &&
-  forallb (fun kv => String.eqb (d_settings d (fst kv)) (snd kv)) (r_settings r) &&
+  forallb (fun kv => String.eqb (d_settings d (fst kv)) (snd kv)) sett &&
   forallb (fun g => String.eqb (recd d g) (recd o g)) groups &&
-  (Nat.eqb (List.length (r_ttl r)) 7) && (Nat.eqb (List.length (r_policy r)) 7).
+  (Nat.eqb (List.length ttl) 7) && (Nat.eqb (List.length pol) 7).
+Definition state_eqb (d : db) (r : orun) : bool := state_eqb3 d (r_ttl r) (r_policy r) (r_settings r).
+Definition ostate_db (st : ostate) : db := db_of (os_ttl st) (os_policy st) (os_settings st).
 
 Fixpoint lookup_parse (tbl : list (string * option Z)) (s : string) : option Z :=
   match tbl with [] => None | (k, v) :: r => if String.eqb s k then v else lookup_parse r s end.
@@ -79,27 +90,39 @@ Definition dbobj_eqb (a b : dbobj) : bool :=
   String.eqb (o_cluster a) (o_cluster b) && list_eqb elem_eqb (o_ttl_policy a) (o_ttl_policy b) &&
   (o_ttl_days a =? o_ttl_days b) && String.eqb (o_storage_policy a) (o_storage_policy b).
 
-(* the model's run: rendered log (oldest first), success, database afterwards, agreement on portCHEnv's result *)
-Definition model_run (d : db) (r : orun) : list ocall * bool * db * bool :=
+(* the model's run: rendered log (oldest first), success, databases afterwards, agreement on the other observations
+   (portCHEnv's result; what initDB did and the named databases).  Database 0 is the history's only database for the
+   kinds that do not distinguish databases. *)
+Definition model_run (ds : nat -> db) (r : orun) : list ocall * bool * (nat -> db) * bool :=
+  let d := ds 0%nat in
   match r_kind r with
-  | KDirect => let '(w, ok) := run (r_cfg r) (r_fault r) d in (map (render (r_cfg r)) (rev (w_log w)), ok, w_db w, true)
-  | KAll os => let '(l, ok, d') := rotate_all (lookup_parse (r_parse r)) os (r_fault r) d in (l, ok, d', true)
+  | KDirect => let '(w, ok) := run (r_cfg r) (r_fault r) d in (map (render (r_cfg r)) (rev (w_log w)), ok, upd ds 0 (w_db w), true)
+  | KAll os => let '(l, ok, d') := rotate_all (lookup_parse (r_parse r)) os (r_fault r) d in (l, ok, upd ds 0 d', true)
   | KEnv e preset oerr oout =>
     match port_ch_env e preset with
-    | None => ([], false, d, oerr)
+    | None => ([], false, ds, oerr)
     | Some os => let '(l, ok, d') := rotate_all (lookup_parse (r_parse r)) os (r_fault r) d in
-                 (l, ok, d', negb oerr && list_eqb dbobj_eqb os oout)
+                 (l, ok, upd ds 0 d', negb oerr && list_eqb dbobj_eqb os oout)
     end
+  | KInit e ifails os o sts =>
+    let '(panicked, called, l, ds') := RotateCfg.init_db (lookup_parse (r_parse r)) e ifails os (r_fault r) ds in
+    let rotated := called && negb ifails in
+    (l, negb panicked, ds',
+     Bool.eqb (oi_panicked o) panicked && Nat.eqb (oi_init_calls o) (if called then 1 else 0) &&
+     Nat.eqb (oi_rotate_calls o) (if rotated then 1 else 0) && (negb rotated || oi_init_first o) &&
+     oi_same_cfg o && oi_projects_ok o &&
+     forallb (fun st => state_eqb3 (ds' (os_db st)) (os_ttl st) (os_policy st) (os_settings st)) sts &&
+     forallb (fun x => existsb (fun st => Nat.eqb (os_db st) (fst x)) sts) (if rotated then os else []))
   end.
 
-Definition run_matches (d : db) (r : orun) : bool * db :=
-  let '(l, ok, d', agree) := model_run d r in
-  (list_eqb ocall_eqb l (r_log r) && Bool.eqb (negb ok) (r_err r) && state_eqb d' r && agree, d').
+Definition run_matches (ds : nat -> db) (r : orun) : bool * (nat -> db) :=
+  let '(l, ok, ds', agree) := model_run ds r in
+  (list_eqb ocall_eqb l (r_log r) && Bool.eqb (negb ok) (r_err r) && state_eqb (ds' 0%nat) r && agree, ds').
 
-Fixpoint runs_match (d : db) (rs : list orun) : bool * db :=
+Fixpoint runs_match (ds : nat -> db) (rs : list orun) : bool * (nat -> db) :=
   match rs with
-  | [] => (true, d)
-  | r :: rest => let '(b, d') := run_matches d r in let '(b', d'') := runs_match d' rest in (b && b', d'')
+  | [] => (true, ds)
+  | r :: rest => let '(b, ds') := run_matches ds r in let '(b', ds'') := runs_match ds' rest in (b && b', ds'')
   end.
 
 (* the concurrent part: the model's scheduler on the granted sequence = the observed interleaved log, every
@@ -116,10 +139,13 @@ Definition conc_matches (d : db) (o : oconc) : bool * db :=
    forallb negb (cc_errs o) && Nat.eqb (List.length (cc_errs o)) (List.length (cc_cfgs o)) &&
    state_eqb (s_db s) (conc_as_run o), s_db s).
 
+(* every database with a name of its own starts fresh *)
+Definition fresh_db : db := {| d_ttl := fun _ => "<initial>"; d_policy := fun _ => "<initial>"; d_settings := fun _ => "" |}.
+Definition init_dbs (c : case) : nat -> db := upd (fun _ => fresh_db) 0 (init_db c).
 Definition model_mismatch (c : case) : bool :=
-  let '(b, d) := runs_match (init_db c) (c_runs c) in
-  let '(b2, d2) := match c_conc c with None => (true, d) | Some o => conc_matches d o end in
-  let '(b3, _) := runs_match d2 (c_after c) in
+  let '(b, ds) := runs_match (init_dbs c) (c_runs c) in
+  let '(b2, d2) := match c_conc c with None => (true, ds 0%nat) | Some o => conc_matches (ds 0%nat) o end in
+  let '(b3, _) := runs_match (upd ds 0 d2) (c_after c) in
   negb (b && b2 && b3).
 
 (* ------------------------------------------------------------------ the property's oracle on observed runs *)
@@ -293,6 +319,7 @@ Definition spec_cfgs (r : orun) : list config * bool :=
     | None => ([], true)
     | Some os => cfgs_of (lookup_parse (r_parse r)) os
     end
+  | KInit _ _ os _ _ => cfgs_of (lookup_parse (r_parse r)) (map snd os)
   end.
 Definition env_ok (r : orun) : bool :=
   match r_kind r with
@@ -321,10 +348,57 @@ Definition glue_cluster_ok (r : orun) (cfgs : list config) : bool :=
   | _ => forallb (fun o => existsb (fun c => cluster_ok c o) cfgs) (r_log r)
   end.
 
+(* func initDB, on the observations and the run's input alone.  The variable boolEnv reads says true: nothing happens;
+   it is not a boolean word: panic, nothing happened; otherwise ctrl.Init is called once, first, with the configuration
+   and "qryn"; it fails: panic and no retention statement; else ctrl.Rotate once with the same arguments, and
+   - every MODIFY TTL respects the minima and carries the tiers, disks and days of one of the configured objects,
+   - a ttl_policy timeout that does not parse: panic,
+   - no fault, every timeout parses: no panic, and every database an object names was reported and its tables carry
+     the configuration of the LAST object naming it (each database its own: the retention of one database is not
+     applied to another). *)
+Fixpoint last_cfg_b (parse : string -> option Z) (os : list (nat * dbobj)) (i : nat) : option config :=
+  match os with
+  | [] => None
+  | (j, o) :: r => match last_cfg_b parse r i with
+                   | Some c => Some c
+                   | None => if Nat.eqb i j then config_of parse o else None
+                   end
+  end.
+Definition init_ok (r : orun) (e : environ) (ifails : bool) (os : list (nat * dbobj)) (o : oinit) (sts : list ostate) : bool :=
+  let parse := lookup_parse (r_parse r) in
+  let quiet := is_nil (r_log r) in
+  match bool_env (getenv e "key") with
+  | None => oi_panicked o && quiet && Nat.eqb (oi_init_calls o) 0 && Nat.eqb (oi_rotate_calls o) 0
+  | Some true => negb (oi_panicked o) && quiet && Nat.eqb (oi_init_calls o) 0 && Nat.eqb (oi_rotate_calls o) 0
+  | Some false =>
+    Nat.eqb (oi_init_calls o) 1 && oi_same_cfg o && oi_projects_ok o &&
+    if ifails then oi_panicked o && quiet && Nat.eqb (oi_rotate_calls o) 0 else
+    let '(cfgs, failed) := cfgs_of parse (map snd os) in
+    Nat.eqb (oi_rotate_calls o) 1 && oi_init_first o &&
+    forallb tier_min_obs (r_log r) &&
+    forallb (fun c => match obs_ttl c with None => true | Some _ => existsb (fun cf => tier_cfg_obs cf c) cfgs end) (r_log r) &&
+    forallb (fun c => existsb (fun cf => cluster_ok cf c) cfgs) (r_log r) &&
+    record_after_all_obs [] (r_log r) &&
+    (negb failed || oi_panicked o) &&
+    match r_fault r with
+    | Some _ => true
+    | None =>
+      failed ||
+      (negb (oi_panicked o) &&
+       forallb (fun x => match last_cfg_b parse os (fst x) with
+                         | None => true
+                         | Some cf => existsb (fun st => Nat.eqb (os_db st) (fst x) && applied_b cf (ostate_db st)) sts
+                         end) os)
+    end
+  end.
+
 Fixpoint runs_ok (start_consistent : bool) (prev_done : option config) (rs : list orun) : bool :=
   match rs with
   | [] => true
   | r :: rest =>
+    match r_kind r with
+    | KInit e ifails os o sts => init_ok r e ifails os o sts && Bool.eqb (r_err r) (oi_panicked o) && runs_ok start_consistent None rest
+    | _ =>
     let '(cfgs, failed) := spec_cfgs r in
     forallb tier_min_obs (r_log r) &&
     (* every TTL statement carries the tiers, disks and days of one of the run's configurations *)
@@ -348,6 +422,7 @@ Fixpoint runs_ok (start_consistent : bool) (prev_done : option config) (rs : lis
       (r_err r || negb start_consistent || applied_b (last l c1) (obs_db r)) &&
       runs_ok start_consistent None rest
     | _, _ => runs_ok start_consistent None rest
+    end
     end
   end.
 (* concurrent instances, on the observations alone: every TTL statement respects the minima and carries the tiers of
